@@ -66,6 +66,60 @@ pub fn chunked_body_flow_for(which: usize) -> Result<F<RecvBody>, String> {
     }
 }
 
+/// The decoder is reached through the flow or through the single-call API (`Call::<RecvBody>::read`): the checks
+/// are the same, so the reader is one of the two behind the same four calls.
+pub enum ChunkReader {
+    Flow(F<RecvBody>),
+    Call(ureq_proto::client::call::Call<ureq_proto::client::call::state::RecvBody, ()>),
+}
+
+impl ChunkReader {
+    pub fn read(&mut self, input: &[u8], output: &mut [u8]) -> Result<(usize, usize), ureq_proto::Error> {
+        match self {
+            ChunkReader::Flow(f) => f.read(input, output),
+            ChunkReader::Call(c) => c.read(input, output),
+        }
+    }
+    pub fn can_proceed(&self) -> bool {
+        match self {
+            ChunkReader::Flow(f) => f.can_proceed(),
+            ChunkReader::Call(c) => c.is_ended(),
+        }
+    }
+    pub fn is_on_chunk_boundary(&self) -> bool {
+        match self {
+            ChunkReader::Flow(f) => f.is_on_chunk_boundary(),
+            ChunkReader::Call(c) => c.is_on_chunk_boundary(),
+        }
+    }
+    pub fn stop_on_chunk_boundary(&mut self, on: bool) {
+        match self {
+            ChunkReader::Flow(f) => f.stop_on_chunk_boundary(on),
+            ChunkReader::Call(c) => c.stop_on_chunk_boundary(on),
+        }
+    }
+}
+
+/// A single call (GET, head written) that received a chunked 200 and moved on to its body.
+pub fn chunked_body_call(which: usize) -> Result<ChunkReader, String> {
+    use ureq_proto::client::call::Call;
+    let req = ureq_proto::http::Request::builder().method(if which % 2 == 0 { "GET" } else { "DELETE" }).uri("http://h.test/").body(()).unwrap();
+    let mut c = Call::without_body(req).map_err(|e| format!("{:?}", e))?;
+    let mut b = [0u8; 256];
+    c.write(&mut b).map_err(|e| format!("{:?}", e))?;
+    let mut c = c.into_receive().map_err(|e| format!("{:?}", e))?;
+    let te = ["chunked", "Chunked", "gzip, chunked", "gzip\r\nTransfer-Encoding: chunked"][which / 2 % 4];
+    let head = format!("HTTP/1.1 {} X\r\nTransfer-Encoding: {}\r\n\r\n", [200, 201, 404][which % 3], te);
+    match c.try_response(head.as_bytes()) {
+        Ok(Some((n, _))) if n == head.len() => {}
+        other => return Err(format!("single-call API: head not accepted: {:?}", other.map(|o| o.map(|v| v.0)))),
+    }
+    match c.into_body() {
+        Ok(Some(b)) => Ok(ChunkReader::Call(b)),
+        other => Err(format!("single-call API: a chunked response did not give a body state: {:?}", other.map(|o| o.is_some()))),
+    }
+}
+
 #[derive(Clone, Copy, Debug)]
 pub enum OutPat {
     /// 0,1,2,3,4,0,1,...
@@ -118,7 +172,15 @@ pub fn run_coding_toggle(coded: &Coded, cuts: &[usize], pat: OutPat, stop: bool,
     let mut stream = coded.bytes.clone();
     stream.extend_from_slice(tail);
     let clen = coded.bytes.len();
-    let mut f = match chunked_body_flow_for(clen + cuts.len()) {
+    let which = clen + cuts.len();
+    // one run in five reads through the single-call API
+    let made = if which % 5 == 2 {
+        rec.cov("reader/single-call-api");
+        chunked_body_call(which)
+    } else {
+        chunked_body_flow_for(which).map(ChunkReader::Flow)
+    };
+    let mut f = match made {
         Ok(f) => f,
         Err(e) => {
             rec.fail("C07/chunked-response-without-body-state", e);
@@ -497,7 +559,7 @@ impl Property for P {
         "C07"
     }
     fn rule(&self) -> String {
-        "chunked codings are rendered from a plan (sizes, hex case, leading zeros, extensions, trailers, payload containing CR/LF/'0'/';'), so payload, coding length and chunk map are known. Each run delivers the coding followed by the head of a next message under a cut set, reading while there is progress with a given output-size pattern, boundary stop on or off, and checks after every read: output == payload so far, never a byte beyond the coding consumed, ended <=> final CRLF consumed, no read spanning two chunks with boundary stop. (A) every coding <= 18 bytes of a tiny grammar x ALL cut sets x {out 0..4 cycle, 1, large, exact-then-zero-length} x stop on/off; the response carrying the coding is one of eight (method, status) pairs incl. 205, 301, 404, 500; (B) grammar codings (<=3 chunks, sizes 1,2,3,15,16,255,256,4095,4096, ext, hex styles, 0..2 trailers) x every single cut and every pair of cuts within +-3 of a token boundary, byte-at-a-time, random cut sets; (C) random codings up to 8 chunks of 20 KB. The coding is announced as chunked / Chunked / gzip, chunked / chunked, (empty list element) / with blanks / on two field lines; chunk extensions up to 120 bytes; trailer lines up to 5000 bytes occur in the random plans. class = token kind before the cut x output pattern; decoder transitions actually taken are counted by the in-crate hook.".into()
+        "chunked codings are rendered from a plan (sizes, hex case, leading zeros, extensions, trailers, payload containing CR/LF/'0'/';'), so payload, coding length and chunk map are known. Each run delivers the coding followed by the head of a next message under a cut set, reading while there is progress with a given output-size pattern, boundary stop on or off, and checks after every read: output == payload so far, never a byte beyond the coding consumed, ended <=> final CRLF consumed, no read spanning two chunks with boundary stop. (A) every coding <= 18 bytes of a tiny grammar x ALL cut sets x {out 0..4 cycle, 1, large, exact-then-zero-length} x stop on/off; the response carrying the coding is one of eight (method, status) pairs incl. 205, 301, 404, 500; (B) grammar codings (<=3 chunks, sizes 1,2,3,15,16,255,256,4095,4096, ext, hex styles, 0..2 trailers) x every single cut and every pair of cuts within +-3 of a token boundary, byte-at-a-time, random cut sets; (C) random codings up to 8 chunks of 20 KB. The coding is announced as chunked / Chunked / gzip, chunked / chunked, (empty list element) / with blanks / on two field lines; chunk extensions up to 120 bytes; trailer lines up to 5000 bytes occur in the random plans. class = token kind before the cut x output pattern; decoder transitions actually taken are counted by the in-crate hook. One run in five reads through the single-call API (Call::<RecvBody>::read), one flow in six receives an interim 102/103 first, one head in four carries a Content-Length next to its Transfer-Encoding lines; sizes padded to 17..41 digits, blanks before and octets above 0x7f inside chunk extensions.".into()
     }
     fn assumptions(&self) -> Vec<String> {
         vec![
@@ -555,6 +617,7 @@ impl Property for P {
         v.push(("trailer-line/98-bytes-or-more".into(), 20));
         v.push(("size-spelling/more-than-20-digits".into(), 20));
         v.push(("size-spelling/blanks-before-extension".into(), 20));
+        v.push(("reader/single-call-api".into(), 1000));
         v
     }
 }
